@@ -12,6 +12,7 @@ secret, mask words, error integers).
 -/
 import Poulpy.Props.C19
 import Poulpy.Lemmas.SamplingL
+import Poulpy.Lemmas.CoreBundle
 
 namespace C06
 open CoreEnc
@@ -204,5 +205,54 @@ theorem noise_placement (w : Int → Int) (k b : Nat) (hb : 1 ≤ b) (hk : 1 ≤
 
 example : ∃ c', Sampling.addNormalCol w64 18 7 [[0, 0], [0, 0], [5, 5]] [3, -4] = some c' ∧ c' = [[0, 0], [0, 0], [8, 1]] := by
   exact ⟨_, by decide, rfl⟩
+
+/-! ### key bundles: the order in which the sub-keys read the two sources -/
+
+/-- **the encryption order of a bundle does not depend on the iteration order of the `atk` map**: for any two listings
+`gal`, `gal'` of the same Galois elements (any permutation — what iterating a `HashMap` may produce), the order of the
+sub-keys of a `CircuitBootstrappingKey` and of a `BDDKey`, and therefore the segment of `source_xa` / `source_xe` each
+sub-key reads (`Core.segments`, for any per-sub-key consumption `use`), are the same. -/
+theorem bundle_order_independent_of_map_iteration (gal gal' : List Int) (h : gal.Perm gal') :
+    Core.cbtOrder gal = Core.cbtOrder gal' ∧ (∀ ksg, Core.bddOrder ksg gal = Core.bddOrder ksg gal') ∧
+    ∀ (use : Core.SubKey → Core.Use) (ksg : Bool) (ma er : Nat),
+      Core.segments use (Core.cbtOrder gal) ma er = Core.segments use (Core.cbtOrder gal') ma er ∧
+      Core.segments use (Core.bddOrder ksg gal) ma er = Core.segments use (Core.bddOrder ksg gal') ma er := by
+  have hs := sortedGal_of_perm h
+  have hc : Core.cbtOrder gal = Core.cbtOrder gal' := by unfold Core.cbtOrder; rw [hs]
+  have hb : ∀ ksg, Core.bddOrder ksg gal = Core.bddOrder ksg gal' := by intro ksg; unfold Core.bddOrder; rw [hc]
+  exact ⟨hc, hb, fun use ksg ma er => ⟨by rw [hc], by rw [hb]⟩⟩
+
+example : Core.cbtOrder [5, -1, 25, 125] = Core.cbtOrder [125, 25, -1, 5] ∧
+    Core.cbtOrder [5, -1, 25, 125] = [.atk (-1), .atk 5, .atk 25, .atk 125, .brk, .tsk] ∧ [5, -1, 25, 125].Perm [125, 25, -1, 5] := by
+  refine ⟨by decide, by decide, ?_⟩
+  decide
+
+/-- **the documented order**: the automorphism keys come first, by ascending Galois element (each element of the map exactly
+once), then the blind-rotation key, then the tensor-switching key; a `BDDKey` puts the optional GLWE→GLWE switching key and
+the GLWE→LWE key before them. -/
+theorem bundle_order_spec (gal : List Int) (ksg : Bool) :
+    (Core.sortedGal gal).Pairwise (fun a b => a ≤ b) ∧ (Core.sortedGal gal).Perm gal ∧
+    Core.cbtOrder gal = (Core.sortedGal gal).map Core.SubKey.atk ++ [Core.SubKey.brk, Core.SubKey.tsk] ∧
+    Core.bddOrder ksg gal = (if ksg then [Core.SubKey.ksGlwe] else []) ++ [Core.SubKey.ksLwe] ++ Core.cbtOrder gal :=
+  ⟨sortedGal_pairwise gal, sortedGal_perm gal, rfl, rfl⟩
+
+example : Core.bddOrder true [3, -1] = [.ksGlwe, .ksLwe, .atk (-1), .atk 3, .brk, .tsk] ∧
+    Core.bddOrder false [3, -1] = [.ksLwe, .atk (-1), .atk 3, .brk, .tsk] := by decide
+
+/-- **each sub-key reads its own consecutive segment of both streams**: the `i`-th sub-key in order starts at the sum of what
+the earlier ones consumed, and segments of different sub-keys do not overlap (`i < j`: segment `i` ends before `j` begins), in
+`source_xa` (mask words) and in `source_xe` (error polynomials). -/
+theorem bundle_segments (use : Core.SubKey → Core.Use) (o : List Core.SubKey) (ma er : Nat) :
+    (∀ i, (Core.segments use o ma er)[i]? = (o[i]?).map (fun k =>
+      (k, ma + ((o.take i).map (fun k => (use k).maskWords)).sum, (use k).maskWords,
+          er + ((o.take i).map (fun k => (use k).errPolys)).sum, (use k).errPolys))) ∧
+    ∀ (i j : Nat) (_ : i < j) (ki kj : Core.SubKey) (mi li ei ni mj lj ej nj : Nat),
+      (Core.segments use o ma er)[i]? = some (ki, mi, li, ei, ni) →
+      (Core.segments use o ma er)[j]? = some (kj, mj, lj, ej, nj) → mi + li ≤ mj ∧ ei + ni ≤ ej :=
+  ⟨segments_get use o ma er, fun i j hij ki kj mi li ei ni mj lj ej nj hi hj =>
+    segments_disjoint use o ma er i j hij ki kj mi li ei ni mj lj ej nj hi hj⟩
+
+example : Core.segments (fun k => match k with | .atk _ => ⟨10, 2⟩ | .brk => ⟨100, 8⟩ | _ => ⟨30, 3⟩) (Core.cbtOrder [3, -1]) 0 0
+    = [(.atk (-1), 0, 10, 0, 2), (.atk 3, 10, 10, 2, 2), (.brk, 20, 100, 4, 8), (.tsk, 120, 30, 12, 3)] := by decide
 
 end C06
